@@ -214,12 +214,17 @@ class MatrixBasis(Basis):
 class SparseMatrixBasis(MatrixBasis):
     def __init__(self, basis: List[np.ndarray]):
         super().__init__(basis)
-        # make _basis immutable
+        # make _basis immutable: a tuple of read-only sparse matrices built from the
+        # deep copies that super().__init__ has stored (never the caller's own objects)
         # self._basis: csr_matrix = csr_matrix(np.array([b.flatten() for b in basis]))
+        basis = self._basis
         if type(basis[0]) == np.ndarray:
             basis = tuple([csr_matrix(b) for b in basis])
         elif type(basis[0]) != csr_matrix:
             raise TypeError(f"MatrixBasis doesn't support type {type(basis[0])}.")
+        for b in basis:
+            for array in (b.data, b.indices, b.indptr):
+                array.setflags(write=False)
         self._basis: Tuple[csr_matrix, ...] = basis
         self._dim = basis[0].shape[0]
 
